@@ -34,12 +34,27 @@ class CallbackBase(BaseException):
     """What a user's callback may also end with: not an Exception (like CancelledError from a cancelled future's .result())."""
 
 
+USER_EXC = {"key": KeyError, "value": ValueError, "index": IndexError, "attr": AttributeError, "type": TypeError,
+            "runtime": RuntimeError, "lookup": LookupError, "os": OSError, "assert": AssertionError}
+KINDS = ["exc", "base", "cancelled"] + sorted(USER_EXC)
+
+
 def _boom(kind):
     if kind == "base":
         raise CallbackBase("user callback failed")
     if kind == "cancelled":
         raise asyncio.CancelledError()
+    # the exceptions ordinary user code ends with (a dict lookup for a device not registered yet, ...): the very types a
+    # parser may also catch for its own purposes - it must not mistake the user's for its own
+    if kind in USER_EXC:
+        raise USER_EXC[kind]("user callback failed")
     raise CallbackBoom("user callback failed")
+
+
+def _boom_name(kind) -> str:
+    if not kind:
+        return ""
+    return {"base": "CallbackBase", "cancelled": "CancelledError"}.get(kind) or (USER_EXC[kind].__name__ if kind in USER_EXC else "CallbackBoom")
 
 
 def make_datagram(d: dict) -> bytes:
@@ -422,7 +437,7 @@ class BridgeRun:
                     ex = c.get("exception")
                     excs.append(type(ex).__name__ if ex is not None else "context:" + str(c.get("message"))[:40])
                 self.log(ev="Dgram", p=st["p"], b=list(data), handed=bool(handed), cbraise=bool(st.get("cbraise")),
-                         delivered=self.got, warns=self.warn_n - w0, logs=self.logh.n - l0, excs=excs, burst=False, cut=False)
+                         cbexc=_boom_name(st.get("cbraise")), delivered=self.got, warns=self.warn_n - w0, logs=self.logh.n - l0, excs=excs, burst=False, cut=False)
                 if self.stop_task is not None:      # the callback stopped the bridge: the stop ran (and the loop cycled) meanwhile
                     task, self.stop_task = self.stop_task, None
                     try:
